@@ -1303,7 +1303,7 @@ func ruleC10BumpNeedsChange(c *Ctx) {
 		for _, in := range instrsOf(g) {
 			if call, ok := in.(ssa.CallInstruction); ok {
 				for _, h := range c.CalleesData(call) {
-					if h != bump && (mm.dictStore[h] || mm.dictRem[h]) {
+					if h != bump && !seen[h] && (mm.dictStore[h] || mm.dictRem[h]) {
 						return true
 					}
 					if h != bump && changes(h, depth+1, seen) {
@@ -1314,17 +1314,48 @@ func ruleC10BumpNeedsChange(c *Ctx) {
 		}
 		return false
 	}
-	n := 0
-	for _, fn := range c.SrcFuncs() {
-		if fn == bump {
-			continue
-		}
-		calls := false
+	// a function that only forwards its own key-name parameter to the helper (and changes nothing itself) is the helper
+	// under another name: its callers are judged
+	bumps := map[*ssa.Function]bool{bump: true}
+	callsBump := func(fn *ssa.Function) (calls, forwardsParam bool) {
+		forwardsParam = true
 		for _, in := range instrsOf(fn) {
-			if call, ok := in.(ssa.CallInstruction); ok && call.Common().StaticCallee() == bump {
+			if call, ok := in.(ssa.CallInstruction); ok && bumps[call.Common().StaticCallee()] {
 				calls = true
+				args := call.Common().Args
+				if len(args) == 0 {
+					forwardsParam = false
+					continue
+				}
+				if _, isP := args[len(args)-1].(*ssa.Parameter); !isP {
+					forwardsParam = false
+				}
 			}
 		}
+		return calls, calls && forwardsParam
+	}
+	for round := 0; round < 3; round++ {
+		for _, fn := range c.SrcFuncs() {
+			if bumps[fn] || fn.Signature.Recv() == nil || fn.Signature.Params().Len() != 1 || fn.Signature.Results().Len() != 0 {
+				continue
+			}
+			if _, fwd := callsBump(fn); fwd {
+				seen := map[*ssa.Function]bool{}
+				for g := range bumps {
+					seen[g] = true
+				}
+				if !changes(fn, 0, seen) {
+					bumps[fn] = true
+				}
+			}
+		}
+	}
+	n := 0
+	for _, fn := range c.SrcFuncs() {
+		if bumps[fn] {
+			continue
+		}
+		calls, _ := callsBump(fn)
 		if !calls {
 			continue
 		}
